@@ -43,7 +43,7 @@ def run(ctx):
         # runs that CONVERGE (tolerance reached, final extra steps of the model-based methods), not only budget-limited ones
         for nm in names:
             model_based = nm in ("NLOPT_LN_BOBYQA", "NLOPT_LN_NEWUOA", "NLOPT_LN_NEWUOA_BOUND", "NLOPT_LN_COBYLA")
-            for rep in range((120 if model_based else 12) if ctx.thorough else (40 if model_based else 4)):
+            for rep in range((400 if model_based else 12) if ctx.thorough else (120 if model_based else 4)):
                 p = problems.gen_problem(rng, A, alg_name=nm, with_constraints=False, box=rng.choice(["finite", "big"]), maxeval=3000, allow_max=False)
                 for k in ("stopval", "ftol_rel", "xtol_abs", "maxtime", "clockq", "clock0", "xw"):
                     p.pop(k, None)
